@@ -44,6 +44,8 @@ type Prog struct {
 	cellStores map[ssa.Value][]*ssa.Store
 	fieldStoresOnce bool
 	fieldStores map[*types.Var][]*ssa.Store
+	pktClosureSet map[*ssa.Function]bool
+	pathFactCache map[*ssa.Function]map[*ssa.BasicBlock][]disjunct
 	Fixture bool // analysing /verif/fixtures: engines use the fixture tables
 }
 
@@ -127,27 +129,38 @@ func Load(dir string, env []string, tags string, universe []string) (*Prog, erro
 	if p.Root == nil {
 		return nil, fmt.Errorf("root package %s not loaded", modPath)
 	}
-	for f := range ssautil.AllFunctions(prog) {
-		if f.Pkg == nil && f.Origin() != nil && f.Origin().Pkg != nil {
-			// generic instantiation: belongs to the package of its origin
-			if p.Universe[f.Origin().Pkg] && f.Blocks != nil {
-				p.Funcs = append(p.Funcs, f)
-				p.funcSet[f] = true
-			}
-			continue
-		}
-		pk := f.Pkg
-		if pk == nil && f.Parent() != nil {
-			pk = f.Parent().Pkg
-		}
-		if pk == nil || !p.Universe[pk] || f.Blocks == nil || f.Synthetic != "" {
-			continue
-		}
-		if excludedFunc(f) {
-			continue
+	addFn := func(f *ssa.Function) {}
+	addFn = func(f *ssa.Function) {
+		if f == nil || f.Blocks == nil || f.Synthetic != "" || p.funcSet[f] || excludedFunc(f) {
+			return
 		}
 		p.Funcs = append(p.Funcs, f)
 		p.funcSet[f] = true
+		for _, a := range f.AnonFuncs {
+			addFn(a)
+		}
+	}
+	// every declared function and every declared method of every named type of the universe (not only those the
+	// program can reach at run time), plus function literals nested in them
+	for sp := range p.Universe {
+		for _, m := range sp.Members {
+			switch m := m.(type) {
+			case *ssa.Function:
+				addFn(m)
+			case *ssa.Type:
+				if n, ok := m.Type().(*types.Named); ok {
+					for i := 0; i < n.NumMethods(); i++ {
+						addFn(prog.FuncValue(n.Method(i)))
+					}
+				}
+			}
+		}
+	}
+	// instantiations of the universe's generic functions
+	for f := range ssautil.AllFunctions(prog) {
+		if f.Pkg == nil && f.Origin() != nil && f.Origin().Pkg != nil && p.Universe[f.Origin().Pkg] {
+			addFn(f)
+		}
 	}
 	sort.Slice(p.Funcs, func(i, j int) bool { return funcKey(p.Funcs[i]) < funcKey(p.Funcs[j]) })
 	if len(p.Funcs) == 0 {
